@@ -520,6 +520,12 @@ void SPxSolverBase<R>::computeLeaveCoPrhs4Col(int i, int n)
       (*theCoPrhs)[i] = theLCbound[n];
       break;
 
+   // rowwise representation: a nonbasic free variable is left at 0
+   case SPxBasisBase<R>::Desc::P_FREE :
+      assert(rep() == ROW);
+      (*theCoPrhs)[i] = 0;
+      break;
+
    default:
       (*theCoPrhs)[i] = this->maxObj(n);
       //      (*theCoPrhs)[i] = 0;
